@@ -5,6 +5,7 @@ go 1.21
 require (
 	github.com/elastic/go-libaudit/v2 v2.0.0
 	golang.org/x/sys v0.11.0
+	gopkg.in/yaml.v3 v3.0.1
 )
 
 require github.com/kballard/go-shellquote v0.0.0-20180428030007-95032a82bc51 // indirect
